@@ -1952,7 +1952,7 @@ rrul_fill_Hly(echs_instant_t *restrict tgt, size_t nti, rrulsp_t rr)
 				     w = w % 7U ?: SUN;
 			     }
 			     while (d > maxd) {
-				     d--, d %= maxd, d++;
+				     d -= maxd;
 				     if (++m > 12U) {
 					     y++;
 					     m = 1U;
@@ -2147,7 +2147,7 @@ rrul_fill_Mly(echs_instant_t *restrict tgt, size_t nti, rrulsp_t rr)
 					     w = w % 7U ?: SUN;
 				     }
 				     while (d > maxd) {
-					     d--, d %= maxd, d++;
+					     d -= maxd;
 					     if (++m > 12U) {
 						     y++;
 						     m = 1U;
@@ -2346,7 +2346,7 @@ rrul_fill_Sly(echs_instant_t *restrict tgt, size_t nti, rrulsp_t rr)
 						     w = w % 7U ?: SUN;
 					     }
 					     while (d > maxd) {
-						     d--, d %= maxd, d++;
+						     d -= maxd;
 						     if (++m > 12U) {
 							     y++;
 							     m = 1U;
